@@ -8,9 +8,13 @@ import (
 
 	"k8s.io/apimachinery/pkg/types"
 
+	networking "istio.io/api/networking/v1alpha3"
 	"istio.io/istio/pilot/pkg/model"
 	"istio.io/istio/pkg/config"
+	"istio.io/istio/pkg/config/constants"
 	"istio.io/istio/pkg/config/host"
+	"istio.io/istio/pkg/config/schema/gvk"
+	"istio.io/istio/pkg/util/sets"
 	"istio.io/istio/pkg/util/hash"
 	vp "istio.io/istio/pkg/zzvp"
 )
@@ -145,4 +149,51 @@ func VerifC06RouteKeyTwin() {
 	a, b := verifBase(), verifBase()
 	b.ListenerPort = 8080
 	vp.Assert(verifKeyOf(a) != verifKeyOf(b), "twin")
+}
+
+// C06-K3b: an entry may be cached only if what is generated from its virtual services does not depend on the requesting
+// proxy beyond what the key holds. The proxy's namespace and labels are not part of the key, so whenever Cacheable() says
+// yes, two proxies that differ in exactly those must get the same routes from the real translation.
+func VerifC06RouteCacheable() {
+	b := &networking.HTTPMatchRequest{}
+	if vp.Choice("match.sourceLabels", 2) == 1 {
+		b.SourceLabels = map[string]string{"app": "x"}
+	}
+	if vp.Choice("match.sourceNamespace", 2) == 1 {
+		b.SourceNamespace = "foo"
+	}
+	if vp.Choice("match.uri", 2) == 1 {
+		b.Uri = &networking.StringMatch{MatchType: &networking.StringMatch_Prefix{Prefix: "/a"}}
+	}
+	rules := []*networking.HTTPRoute{
+		{Name: "rule0", Match: []*networking.HTTPMatchRequest{b}, DirectResponse: &networking.HTTPDirectResponse{Status: 200}},
+		{Name: "rule1", DirectResponse: &networking.HTTPDirectResponse{Status: 201}},
+	}
+	if vp.Choice("matchOnSecondRule", 2) == 1 {
+		rules = []*networking.HTTPRoute{
+			{Name: "rule0", Match: []*networking.HTTPMatchRequest{{Uri: &networking.StringMatch{MatchType: &networking.StringMatch_Exact{Exact: "/z"}}}},
+				DirectResponse: &networking.HTTPDirectResponse{Status: 202}},
+			rules[0], rules[1],
+		}
+	}
+	vs := &networking.VirtualService{Hosts: []string{"svc"}, Http: rules}
+	cfg := config.Config{Meta: config.Meta{GroupVersionKind: gvk.VirtualService, Name: "vs", Namespace: "ns"}, Spec: vs}
+	c := verifBase()
+	c.VirtualServices = []*config.Config{&cfg}
+	p1 := &model.Proxy{Type: model.SidecarProxy, Labels: map[string]string{"app": "x"}, ConfigNamespace: "foo", Metadata: &model.NodeMetadata{Namespace: "foo"}}
+	p2 := &model.Proxy{Type: model.SidecarProxy, Labels: map[string]string{"app": "y"}, ConfigNamespace: "bar", Metadata: &model.NodeMetadata{Namespace: "bar"}}
+	r1, e1 := BuildHTTPRoutesForVirtualService(p1, cfg, 80, sets.New(constants.IstioMeshGateway), RouteOptions{})
+	r2, e2 := BuildHTTPRoutesForVirtualService(p2, cfg, 80, sets.New(constants.IstioMeshGateway), RouteOptions{})
+	vp.Reach("built")
+	if !c.Cacheable() {
+		return
+	}
+	vp.Reach("cacheable")
+	vp.Assert((e1 == nil) == (e2 == nil), "cacheable-entry-does-not-depend-on-the-proxy-beyond-its-key")
+	vp.Assert(len(r1) == len(r2), "cacheable-entry-does-not-depend-on-the-proxy-beyond-its-key")
+	for i := range r1 {
+		if i < len(r2) {
+			vp.Assert(r1[i].Name == r2[i].Name, "cacheable-entry-does-not-depend-on-the-proxy-beyond-its-key")
+		}
+	}
 }
